@@ -81,7 +81,8 @@ static void t_remove(void *c, int a, int b, res_t *r) { qtreetbl_t *t = c; rb(r,
 static void t_removenull(void *c, int a, int b, res_t *r) { qtreetbl_t *t = c; (void)a; (void)b; rb(r, t->remove(t, NULL)); }
 static void t_walkop(void *c, int a, int b, res_t *r) { if (a == 9) { rb(r, ((qtreetbl_t *)c)->getnext(c, NULL, b)); r->failed = 0; return; } t_walk(c, b, r); }
 static void t_minmax(void *c, int a, int b, res_t *r) { qtreetbl_t *t = c; (void)b; size_t ns = 0; errno = 0; void *p = a ? t->find_max(t, &ns) : t->find_min(t, &ns); int e = errno; rp(r, p, p ? ns : 0, 1); if (!p && e == ENOENT) r->failed = 0; }
-static void t_nearest(void *c, int a, int b, res_t *r) { qtreetbl_t *t = c; errno = 0; qtreetbl_obj_t o = t->find_nearest(t, KS[a], strlen(KS[a]) + 1, b); int e = errno; r->failed = (o.name == NULL && e != ENOENT) || (b && o.name && o.datasize && !o.data); sprintf(r->s, "%s=%.*s", o.name ? (char *)o.name : "NULL", (int)(o.data ? o.datasize : 0), o.data ? (char *)o.data : ""); if (b) { free(o.name); free(o.data); } }
+/* a caller recognises failure by the documented empty object (name NULL) and then owns nothing: it frees the copies only of a non-empty result, and a non-empty result with newmem must carry both copies */
+static void t_nearest(void *c, int a, int b, res_t *r) { qtreetbl_t *t = c; errno = 0; qtreetbl_obj_t o = t->find_nearest(t, KS[a], strlen(KS[a]) + 1, b); int e = errno; r->failed = (o.name == NULL && e != ENOENT); sprintf(r->s, "%s=%.*s", o.name ? (char *)o.name : "NULL", (int)(o.data ? o.datasize : 4), o.data ? (char *)o.data : "NULL"); if (b && o.name) { free(o.name); free(o.data); } }
 static void t_nearestnull(void *c, int a, int b, res_t *r) { qtreetbl_t *t = c; (void)a; (void)b; qtreetbl_obj_t o = t->find_nearest(t, NULL, 0, true); rb(r, o.name != NULL); }
 static void t_size(void *c, int a, int b, res_t *r) { (void)a; (void)b; rn(r, ((qtreetbl_t *)c)->size(c), 0); }
 static void t_clear(void *c, int a, int b, res_t *r) { (void)a; (void)b; ((qtreetbl_t *)c)->clear(c); rb(r, 1); }
